@@ -56,9 +56,13 @@ Unsettled(W, u, kind, b) ==
          IF IsRedirect(r) THEN (r.loc # "" /\ b > 0 /\ Unsettled(W, r.loc, kind, b - 1))
          ELSE GoodStatus(r) /\ MixedTypes(r, kind) /\ r.body = "obj"
 
-IsSubseq(s, t) == \E f \in [1..Len(s) -> 1..Len(t)] :
-                     /\ \A i \in 1..Len(s) : t[f[i]] = s[i]
-                     /\ \A i \in 1..(Len(s) - 1) : f[i] < f[i + 1]
+(* s is a subsequence of t (greedy matching; linear, chains may be long) *)
+RECURSIVE SubseqFrom(_, _, _, _)
+SubseqFrom(s, t, i, j) == IF i > Len(s) THEN TRUE
+                          ELSE IF j > Len(t) THEN FALSE
+                          ELSE IF s[i] = t[j] THEN SubseqFrom(s, t, i + 1, j + 1)
+                          ELSE SubseqFrom(s, t, i, j + 1)
+IsSubseq(s, t) == SubseqFrom(s, t, 1, 1)
 
 (* what C03 demands of one observed fetch: result and requests *)
 FetchOK(W, u, kind, b, res, reqs) ==
